@@ -456,6 +456,42 @@ func init() {
 			return buf.Bytes(), err
 		}},
 	}
+	// long sibling keys: URLs / map keys that agree in their first 70, 130 or 300 bytes and differ only behind that
+	// (deep paths of one directory).  A key sort that looks at a bounded prefix leaves such keys in the order they
+	// arrived in - the insertion order here, Go's randomised map iteration order inside the bundle writer
+	longSib := func(prefixLen, i int) string {
+		return "https://a.test/" + strings.Repeat("d", prefixLen-len("https://a.test/")) + []string{"/b.html", "/a.html", "/c.css", "/aa.js"}[i]
+	}
+	for _, pl := range []int{70, 130, 300} {
+		pl := pl
+		permCases = append(permCases,
+			permCase{fmt.Sprintf("cbor.EncodeMap entry list order, keys sharing their first %d bytes", pl), 4, func(o []int) ([]byte, error) {
+				var mes []*cbor.MapEntryEncoder
+				for _, i := range o {
+					i := i
+					mes = append(mes, cbor.GenerateMapEntry(func(k, v *cbor.Encoder) { k.EncodeTextString(longSib(pl, i)); v.EncodeUint(uint64(i)) }))
+				}
+				var buf bytes.Buffer
+				err := cbor.NewEncoder(&buf).EncodeMap(mes)
+				return buf.Bytes(), err
+			}},
+			permCase{fmt.Sprintf("Bundle.WriteTo(b2) exchange order fixed, 4 sibling URLs sharing their first %d bytes", pl), 3, func(o []int) ([]byte, error) {
+				b := &bundle.Bundle{Version: bversion.VersionB2}
+				for i := 0; i < 4; i++ {
+					b.Exchanges = append(b.Exchanges, &bundle.Exchange{Request: bundle.Request{URL: c18MustURL(longSib(pl, i))}, Response: bundle.Response{Status: 200, Header: hdr(o), Body: []byte{byte(i)}}})
+				}
+				var buf bytes.Buffer
+				_, err := b.WriteTo(&buf)
+				return buf.Bytes(), err
+			}},
+			permCase{fmt.Sprintf("SignedSubset.Encode, 4 sibling URLs sharing their first %d bytes", pl), 4, func(o []int) ([]byte, error) {
+				m := map[string]*signature.ResponseHashes{}
+				for _, i := range o {
+					m[longSib(pl, i)] = &signature.ResponseHashes{Hashes: []*signature.ResourceIntegrity{{HeaderSha256: []byte{byte(i)}, PayloadIntegrityHeader: "digest/mi-sha256-03"}}}
+				}
+				return (&signature.SignedSubset{ValidityUrl: c18MustURL("https://a.test/v"), AuthSha256: []byte{1}, Date: c18Date, Expires: c18Date, SubsetHashes: m}).Encode()
+			}})
+	}
 	// header maps holding the SAME field name under several case spellings (only possible by direct
 	// map assignment): whatever the serializer does with them - refuse, or fold them - it must do
 	// the same every time and for every insertion order
